@@ -381,6 +381,11 @@ func (e *Engine) writesOf(c *Ctx, fn *ssa.Function) *WriteSet {
 		for _, h := range fc.Writes {
 			w.Heaps[h] = true
 		}
+		if len(fc.Modifies) > 0 && !fc.HasWrites && !fc.WritesAll {
+			// an assumed contract that names modified objects but no heaps: every heap may be
+			// written (inside those objects; the frame facts keep everything else)
+			w.All = true
+		}
 		e.writeMemo[name] = w
 		return w
 	}
